@@ -10,7 +10,7 @@ ID = 'C20'
 RULE = ('CSV tables of 1..50 rows over the non-derived configured output columns (MTI, data elements, PDS sub-elements; not the '
         'PDS carrier together with PDS columns), cells with commas, quotes, leading/trailing spaces and boundary lengths, plain '
         'decimal numbers, ISO date-times across the two-digit-year window, empty cells = absent; latin_1/cp500 x blocking; through '
-        'mci_csv_to_ipm / mci_ipm_to_csv as functions and through their command entry points on real files; '
+        'mci_csv_to_ipm / mci_ipm_to_csv as functions and through their command entry points on real files (packaged configuration, and the same configuration handed over as --config-file, as cardutil.json in $CARDUTIL_CONFIG, and without the output column list); '
         'non-trivial = distinct table with at least 2 rows')
 EXHAUSTIVE = {}
 ASSUMPTIONS = ['CPython csv module: read(write(rows)) = rows for cells without CR/LF (oracle)', 'cells contain no CR/LF (outside the stated domain)']
@@ -72,7 +72,7 @@ def gen(rng, tier):
         rows = []
         for _ in range(rng.choice([1, 2, 5, 20, 50]) if i % 7 else 1):
             rows.append([cell(rng, c, pk) if (c == 'MTI' or rng.random() < 0.7) else '' for c in cols])
-        cases.append({'cols': cols, 'rows': rows, 'codec': rng.choice(['latin_1', 'cp500']), 'blocked': rng.random() < 0.5, 'via': 'cli' if i % 3 == 0 else 'func'})
+        cases.append({'cols': cols, 'rows': rows, 'codec': rng.choice(['latin_1', 'cp500']), 'blocked': rng.random() < 0.5, 'via': ['cli', 'cli-config', 'cli-env', 'cli-nolist'][(i // 3) % 4] if i % 3 == 0 else 'func'})
     return cases
 
 
@@ -98,29 +98,53 @@ def impl(case):
             mci_ipm_to_csv.mci_ipm_to_csv(in_ipm=io.BytesIO(ipm.getvalue()), out_csv=out, config=config, in_encoding=case['codec'], no1014blocking=nb)
             return ipm.getvalue(), out.getvalue()
         base = os.path.join(os.getcwd(), 'c20_%d' % os.getpid())
+        cfg_args, env_dir = [], None
         try:
+            # the tools' own ways of receiving a configuration: --config-file, or cardutil.json in $CARDUTIL_CONFIG.
+            # The file holds the packaged configuration (or, `nolist`, the same without the output column list)
+            if case['via'] in ('cli-config', 'cli-env', 'cli-nolist'):
+                import json
+                c = dict(config)
+                if case['via'] == 'cli-nolist':
+                    c.pop('output_data_elements', None)
+                if case['via'] == 'cli-env':
+                    env_dir = base + '_cfg'
+                    os.makedirs(env_dir, exist_ok=True)
+                    with open(os.path.join(env_dir, 'cardutil.json'), 'w') as f:
+                        json.dump(c, f)
+                    os.environ['CARDUTIL_CONFIG'] = env_dir
+                else:
+                    with open(base + '.json', 'w') as f:
+                        json.dump(c, f)
+                    cfg_args = ['--config-file', base + '.json']
             with open(base + '.csv', 'w', encoding='utf8', newline='') as f:
                 f.write(text)
             with contextlib.redirect_stdout(io.StringIO()):
-                a = ['--out-encoding', case['codec']] + (['--no1014blocking'] if nb else [])
+                a = cfg_args + ['--out-encoding', case['codec']] + (['--no1014blocking'] if nb else [])
                 mci_csv_to_ipm.cli_run(**vars(mci_csv_to_ipm.cli_parser().parse_args([base + '.csv', '-o', base + '.ipm', '--in-encoding', 'utf8'] + a)))
-                a = ['--in-encoding', case['codec']] + (['--no1014blocking'] if nb else [])
+                a = cfg_args + ['--in-encoding', case['codec']] + (['--no1014blocking'] if nb else [])
                 mci_ipm_to_csv.cli_run(**vars(mci_ipm_to_csv.cli_parser().parse_args([base + '.ipm', '-o', base + '.out.csv', '--out-encoding', 'utf8'] + a)))
             with open(base + '.ipm', 'rb') as f:
                 ipm = f.read()
             with open(base + '.out.csv', 'r', encoding='utf8', newline='') as f:
                 return ipm, f.read()
         finally:
-            for ext in ('.csv', '.ipm', '.out.csv'):
+            for ext in ('.csv', '.ipm', '.out.csv', '.json'):
                 if os.path.exists(base + ext):
                     os.unlink(base + ext)
+            if env_dir:
+                os.environ.pop('CARDUTIL_CONFIG', None)
+                import shutil
+                shutil.rmtree(env_dir, ignore_errors=True)
     try:
         ipm, out = run()
     except Exception as ex:
         from util import exc_class
         return {'out': 'RAISE ' + exc_class(ex)}
     back = list(csv.DictReader(io.StringIO(out)))
-    return {'out': 'OK', 'ipm': ipm.hex(), 'rows': [[r.get(c) for c in case['cols']] for r in back], 'n': len(back)}
+    # without an output column list the tool writes the columns that occur: a column that is empty in every row is absent
+    absent = '' if case['via'] == 'cli-nolist' else None
+    return {'out': 'OK', 'ipm': ipm.hex(), 'rows': [[r.get(c, absent) for c in case['cols']] for r in back], 'n': len(back)}
 
 
 def cols_text(cols):
